@@ -42,6 +42,15 @@ pub trait Field:
     fn is_zero(self) -> bool {
         self == Self::zero()
     }
+    /// the same value, additionally carrying `other`'s error bound (no-op in the exact field);
+    /// used to compare a law's residual against the bound the model derived for it
+    fn with_err_of(self, _other: Self) -> Self {
+        self
+    }
+    /// running error bound in units of u (0 in the exact field)
+    fn err(self) -> f64 {
+        0.0
+    }
 }
 
 impl Field for Ex {
@@ -189,5 +198,11 @@ impl Field for Sh {
     }
     fn approx(self) -> f64 {
         self.v
+    }
+    fn with_err_of(self, other: Sh) -> Sh {
+        Sh { v: self.v, e: self.e + other.e }
+    }
+    fn err(self) -> f64 {
+        self.e
     }
 }
